@@ -43,4 +43,15 @@ theorem symFail_mag_complete {mc : MagCellQ} {collinear axial : Bool} {W : QM3} 
   simp only [if_true, Bool.not_eq_true, Bool.not_eq_false']
   exact findMagSite_complete hA hw (h i (List.mem_range.1 hi))
 
+theorem symFail_pos_complete {mc : MagCellQ} {collinear axial : Bool} {W : QM3} {w : Q3} {det : Int} {tr : Bool}
+    {e2 me2 : Rat} (hA : mc.cell.lat.det ≠ 0) (hw : Window mc.cell.lat e2)
+    (h : PosInvariant mc.cell W w e2) :
+    symFail mc (SiteIndex.build mc.cell) collinear axial W w det tr e2 me2 false = none := by
+  unfold symFail
+  rw [List.find?_eq_none]
+  intro i hi
+  unfold siteCarried
+  simp only [Bool.false_eq_true, if_false, Bool.not_eq_true, Bool.not_eq_false']
+  exact find_isSome_complete hA hw (h i (List.mem_range.1 hi))
+
 end Moyo.MagP
